@@ -99,7 +99,10 @@ class Baton:
                 self.ran_out_of_turn += 1
             if (self.micro_seed and self.running == me and self.pos < len(self.schedule) and self.schedule[self.pos] != me
                     and me in self.schedule[self.pos:]):
-                m = zlib.crc32(("%d/%d/%s" % (self.micro_seed, self.pos, me)).encode()) % 90
+                # how far into its next step the thread runs before it is frozen: the range rotates with the seed, so that freeze points fall
+                # into the first primitives of the forward trace (90), anywhere in a small differentiation (400) or deep in the backward
+                # pass / an outer level of a nested one (1500 line events)
+                m = zlib.crc32(("%d/%d/%s" % (self.micro_seed, self.pos, me)).encode()) % (90, 400, 1500)[self.micro_seed % 3]
                 if m > 0:
                     self.mid[me] = m       # keep the baton, run into the next step, freeze after m line events
                     self.instep.add(me)
